@@ -237,4 +237,4 @@ let handle (line : string) (kind : string) (args : string list) (obs : string) :
   | "engmove" -> handle_engmove line args obs
   | "engfen" -> handle_engfen line args obs
   | "ucipos" -> handle_ucipos line args obs
-  | _ -> Dispatch5.handle line kind args obs
+  | _ -> failwith ("unknown case kind: " ^ line)
